@@ -22,6 +22,10 @@ DOT = "·"
 
 # ---------------------------------------------------------------- forms
 
+# identifiers that stand for bound Python names in the forms (everything else - ls, echo, cmd,
+# cat, git ... - is an unbound word, i.e. a command for xonsh's context-sensitive parser)
+BOUND = frozenset("a b c d e i j k v w x y z f g m s t self print E A B M dec dec2 ctx aliases int sep".split())
+
 # expressions (Python)
 PY_EXPRS = [
     "a + b",
@@ -59,7 +63,7 @@ PY_EXPRS = [
     "(·a·,·)",
     "(·yield·)",
     "await a",
-    "1·.·real",
+    "1 .·real",
     "1. + .5j",
     "0x1f·if·a·else·1_0",
     "...",
@@ -176,7 +180,6 @@ BLOCK_STMTS = [
     "for i·,·j in a·:\n>x = i\nelse·:\n>pass",
     "while a·:\n>break\n>continue",
     "with a as b·,·c·(·)·as d·:\n>pass",
-    "with (·a as b·,·c as d·)·:\n>pass",
     "try·:\n>a = 1\nexcept E as e·:\n>raise\nexcept (·A·,·B·)·:\n>pass\nelse·:\n>pass\nfinally·:\n>pass",
     "def f·(·)·:\n>yield a\n>x = yield\n>yield from b",
     "async def f·(·)·:\n>async with a·:\n>>await b",
@@ -323,31 +326,34 @@ def _fill_stmt(ctx, stmt):
     return "\n".join(out)
 
 
-def forms(thorough=False):
-    """[(family, core?, text)] - 'core' forms are the ones enumerated at the higher k."""
+# which context indices make up the quick tier (the thorough tier uses all of them)
+QUICK_CTX = {"py": (0, 5), "str": (0, 1, 5), "x": (0, 1, 3), "stmt": (0, 3), "block": (0, 2), "xstmt": (0, 2)}
+
+
+def forms():
+    """[(family, core?, quick?, text)] - 'core' forms (context 0) also get the prefix family and
+    the higher deviation bound of the thorough tier."""
     out = []
     seen = set()
 
-    def add(fam, core, text):
+    def add(fam, ci, text):
         if text not in seen:
             seen.add(text)
-            out.append((fam, core, text))
+            out.append((fam, ci == 0, ci in QUICK_CTX[fam], text))
 
-    for e in PY_EXPRS + STR_EXPRS:
-        for ci, c in enumerate(EXPR_CTX):
-            add("expr", ci == 0, c.replace("{E}", e))
-    for e in X_EXPRS:
-        for ci, c in enumerate(XEXPR_CTX):
-            add("xexpr", ci == 0, c.replace("{E}", e))
+    for fam, exprs, ctxs in (("py", PY_EXPRS, EXPR_CTX), ("str", STR_EXPRS, EXPR_CTX), ("x", X_EXPRS, XEXPR_CTX)):
+        for e in exprs:
+            for ci, c in enumerate(ctxs):
+                add(fam, ci, c.replace("{E}", e))
     for fam, stmts in (("stmt", SIMPLE_STMTS), ("block", BLOCK_STMTS), ("xstmt", X_STMTS)):
         for s in stmts:
             for ci, c in enumerate(STMT_CTX):
-                if fam == "stmt" and s == "return" and ci < 3:
+                if s == "return" and ci < 3:
                     continue
-                add(fam, ci == 0, _fill_stmt(c, s))
+                add(fam, ci, _fill_stmt(c, s))
     # expression statements nested at depth 2 (subprocess detection inside blocks)
     for e in X_EXPRS + STR_EXPRS[:6]:
-        add("xexpr", False, _fill_stmt(STMT_CTX[3], e))
+        add("x", 9, _fill_stmt(STMT_CTX[3], e))
     return out
 
 
@@ -379,7 +385,7 @@ def parse_form(text):
 GAP_OUT = ["", " ", "   ", "\t", " \\\n", "\\\n", " \\\n      ", " \\\n\t", " \\ \n"]
 GAP_IN = ["\n", "\n  ", "\n\t\t", " # c\n", "\n# c\n    ", " \n", "\n\n", "\n        "]
 # reduced alphabets used for the pair (k=2) enumeration
-GAP_OUT_2 = ["", " ", "   ", " \\\n  "]
+GAP_OUT_2 = ["", " ", "   ", " \\\n      "]
 GAP_IN_2 = ["\n", " # c\n"]
 
 POST = ["  ", "\t", " # c", "# c", "  #c  ", " #", "   # c # d"]
